@@ -449,3 +449,26 @@ package dnssec
 //@   loop 1 invariant 0 <= len(encoded) && 0 <= seen && seen <= 3
 //@   loop 2 invariant 0 <= len(encoded) && 0 <= seen && seen <= 3 && 0 <= decoded && decoded <= 192 && 0 <= i && i < decoded
 //@   note only panic-freedom (index/slice bounds) is claimed here
+//@
+//@ # ---- C01: a wildcard-expanded answer (RRSIG label count below the owner's) is authentic only with a denial of the
+//@ # next-closer name from the response's own NSEC/NSEC3 records bound to the signer; without one it is an error, and
+//@ # an opt-out based denial makes the answer insecure (no AD), never secure
+//@ func VerifyWildcardAnswerForZoneWithWork
+//@   abstract
+//@   nosafety all pre
+//@   assert at call middleware/resolver/dnssec.nextCloserDeniedWithWork#1: arg1 == signer && arg4 == work && arg2 == nsecSet && arg3 == nsec3Set
+//@   assert at return#3: !result0 && result1 != nil
+//@   assert at return#4: !result0 && result1 != nil && !lastret("middleware/resolver/dnssec.nextCloserDeniedWithWork")
+//@   assert at return#1: !result0 && result1 != nil
+//@   assert at return#2: !result0
+//@   assert at return#5: result1 == nil
+//@
+//@ func nextCloserDeniedWithWork
+//@   abstract
+//@   nosafety all pre
+//@   assert at return#1: result0 && result1 && result2 == nil && lastret("middleware/resolver/dnssec.nsecCovers")
+//@   assert at call middleware/resolver/dnssec.nsecCovers#1: arg2 == nextCloser
+//@   assert at call middleware/resolver/dnssec.prepareNSEC3Set#1: arg0 == nsec3Set && arg1 == signer
+//@   assert at return#2: !result0 && !result1
+//@   assert at return#3: !result0 && !result1 && result2 != nil
+//@   assert at return#4: !result0 && !result1 && result2 != nil
